@@ -122,6 +122,15 @@ class ServiceSystem:
 
   def hard_reset(self):
     """Brand-new server and datastore objects (nothing that a server object may keep in memory survives)."""
+    if getattr(self, '_hard_ready', False) and all(b.kind == 'sqlfile' for b in self.bs):
+      # SQLite file: put the empty database back, then open it with new server / datastore / engine objects
+      for b, s in zip(self.bs, self._empty):
+        b.restore(s)
+        b.restart()
+        if hasattr(b, '_others'):
+          del b._others
+      self.reset()
+      return
     for b in self.bs:
       b.close()
     self.bs = []
@@ -133,6 +142,7 @@ class ServiceSystem:
         path = os.path.join(self._tmp, 'v.db')
       self.bs.append(svc.Backend(k, path=path))
     self._empty = [b.snapshot() for b in self.bs]
+    self._hard_ready = True
     self.reset()
 
   def reset(self):
